@@ -77,7 +77,19 @@ type Fault struct {
 // An error that merely *wraps* io.EOF is not one of them: the io.Reader
 // contract has end of input signalled by io.EOF itself, compared with ==, so
 // "connection lost: EOF" built with %w is a failure like any other.
-var FaultErrors = []error{ErrInjected, fmt.Errorf("transport: %w", ErrInjected), syscall.EIO, io.ErrClosedPipe, fmt.Errorf("connection lost: %w", io.EOF)}
+//
+// Errors that describe themselves as temporary or as timeouts (EAGAIN from a
+// non-blocking descriptor, a deadline on a connection) are failures of the
+// Read call that returned them all the same: a reader that wants them retried
+// retries them itself.
+var FaultErrors = []error{ErrInjected, fmt.Errorf("transport: %w", ErrInjected), syscall.EIO, io.ErrClosedPipe, fmt.Errorf("connection lost: %w", io.EOF),
+	syscall.EAGAIN, syscall.EINTR, timeoutError{}}
+
+type timeoutError struct{}
+
+func (timeoutError) Error() string   { return "simulated i/o timeout" }
+func (timeoutError) Timeout() bool   { return true }
+func (timeoutError) Temporary() bool { return true }
 
 func (f Fault) err() error {
 	if f.Err != nil {
